@@ -98,10 +98,10 @@ func identName(base string, style int) string {
 	return base
 }
 
-var c01Locations = []string{"flat", "nested", "maven-main", "maven-test", "suffix-Test", "suffix-Tests", "gitignored", "testData", "non-java"}
+var c01Locations = []string{"flat", "nested", "maven-main", "maven-test", "suffix-Test", "suffix-Tests", "gitignored", "testData", "non-java", "gitignored-file", "gitignored-glob"}
 
 // c01Unit generates one conventional compilation unit.
-func c01Unit(c *engine.C, idx int, forceMain bool) (cls *jg.Class, relPath string, isMain bool, needGitignore bool) {
+func c01Unit(c *engine.C, idx int, forceMain bool) (cls *jg.Class, relPath string, isMain bool, needGitignore string) {
 	pfx := fmt.Sprintf("u%d-", idx)
 	base := []string{"Alpha", "Beta", "Gamma"}[idx]
 	loc := "flat"
@@ -275,7 +275,12 @@ func c01Unit(c *engine.C, idx int, forceMain bool) (cls *jg.Class, relPath strin
 	case "suffix-Tests":
 		relPath = filepath.Join("sub", name+"Tests.java")
 	case "gitignored":
-		relPath, needGitignore = filepath.Join("ignored", file), true
+		relPath, needGitignore = filepath.Join("ignored", file), "ignored/"
+	case "gitignored-file":
+		// a pattern that names one regular file lying between other main files
+		relPath, needGitignore = file, file
+	case "gitignored-glob":
+		relPath, needGitignore = name+".gen.java", "*.gen.java"
 	case "testData":
 		relPath = filepath.Join("testData", file)
 	case "non-java":
@@ -416,16 +421,23 @@ func renderModel(root string, nodes []core_domain.CodeDataStruct) string {
 	return strings.Join(lines, "\n")
 }
 
-func c01Gen(c *engine.C) engine.Case {
+func c01Gen(c *engine.C) engine.Case { return c01GenMode(c, "api") }
+
+// c01GenCLI: the same trees through `coca analysis -p .` (identify.json / deps.json) in a child process.
+func c01GenCLI(c *engine.C) engine.Case { return c01GenMode(c, "cli") }
+
+func c01GenMode(c *engine.C, mode string) engine.Case {
 	layout, _ := pickLayout(c)
 	nUnits := []int{1, 2, 3}[c.Choose(3, "units")]
 	var files []FileSpec
 	var exp []expType
-	gitignore := false
+	var gitignore []string
 	nontrivial := false
 	for i := 0; i < nUnits; i++ {
 		cls, relPath, isMain, gi := c01Unit(c, i, i == 0)
-		gitignore = gitignore || gi
+		if gi != "" {
+			gitignore = append(gitignore, gi)
+		}
 		files = append(files, FileSpec{Path: relPath, Content: jg.Print(cls, layout)})
 		if isMain {
 			exp = append(exp, expectedOf(cls, relPath))
@@ -434,8 +446,8 @@ func c01Gen(c *engine.C) engine.Case {
 			}
 		}
 	}
-	if gitignore {
-		files = append(files, FileSpec{Path: ".gitignore", Content: "ignored/\n"})
+	if len(gitignore) > 0 {
+		files = append(files, FileSpec{Path: ".gitignore", Content: strings.Join(gitignore, "\n") + "\n"})
 	}
 	viaPath := c.Bool("via-AnalysisPath-of-subdir-listing")
 	return func() engine.Result {
@@ -447,10 +459,28 @@ func c01Gen(c *engine.C) engine.Case {
 		root, cleanup := materialise(files)
 		defer cleanup()
 		_ = viaPath
-		identApp := javaapp.NewJavaIdentifierApp()
-		idents := identApp.AnalysisPath(root)
-		fullApp := javaapp.NewJavaFullApp()
-		full := fullApp.AnalysisPath(root, idents)
+		var idents, full []core_domain.CodeDataStruct
+		if mode == "cli" {
+			r := runCLI(root, "analysis", "-p", ".")
+			if r.Exit != 0 {
+				res.Outcome = "CLI-FAILED"
+				res.Violations = append(res.Violations, engine.V("cli", "exit-status", "coca analysis exited %d: %s", r.Exit, trimTo(r.Stderr+r.Stdout, 600)))
+				return res
+			}
+			if err := readReport(root, "identify.json", &idents); err != nil {
+				res.Violations = append(res.Violations, engine.V("cli", "no-report", "identify.json: %v", err))
+				return res
+			}
+			if err := readReport(root, "deps.json", &full); err != nil {
+				res.Violations = append(res.Violations, engine.V("cli", "no-report", "deps.json: %v", err))
+				return res
+			}
+		} else {
+			identApp := javaapp.NewJavaIdentifierApp()
+			idents = identApp.AnalysisPath(root)
+			fullApp := javaapp.NewJavaFullApp()
+			full = fullApp.AnalysisPath(root, idents)
+		}
 		res.Outcome = "IDENT\n" + renderModel(root, idents) + "\nFULL\n" + renderModel(root, full)
 		res.Violations = append(res.Violations, compareModel("ident", root, idents, exp, false)...)
 		res.Violations = append(res.Violations, compareModel("full", root, full, exp, false)...)
@@ -469,6 +499,6 @@ func init() {
 			"functions are compared as a multiset (order inside a type is unspecified, C08); unnamed helper entries are ignored",
 			"superclass is accepted as the simple name written or any qualified name ending in it",
 		},
-		Sections: []engine.Section{{Name: "trees", KQuick: 3, KThor: 4, Gen: c01Gen}},
+		Sections: []engine.Section{{Name: "trees", KQuick: 3, KThor: 4, Gen: c01Gen}, {Name: "trees-through-coca-analysis", KQuick: 1, KThor: 2, Gen: c01GenCLI}},
 	})
 }
